@@ -323,3 +323,11 @@ func nativeCompareDecls(a, b, mode string) (string, bool) {
 	nCmp++
 	return compareDeclsNative(a, b, mode)
 }
+
+// VFile (native): creates the file under the scratch root so that os.Stat succeeds.
+func VFile(path string) {
+	if filepath.IsAbs(path) {
+		_ = os.MkdirAll(filepath.Dir(path), 0o755)
+		_ = os.WriteFile(path, []byte("{}"), 0o644)
+	}
+}
